@@ -185,6 +185,10 @@ func c07Hook(point int) {
 }
 
 func c07Case(c *core.Ctx, idx int) {
+	if c.Lane == "systematic" {
+		c07Systematic(c, idx)
+		return
+	}
 	rec := c.Rec
 	r := c.Rand(idx)
 	fams := c07Families()
@@ -287,10 +291,12 @@ func init() {
 		Technique: "Go race detector over free-running concurrent first use on fresh instances (delays injected at verif yield hooks) + serialising PCT scheduler at the yield hooks with a sequentially built reference instance as oracle + post-quiescence conformance of the shared instance",
 		Rule: "one trial = a fresh Plenc instance (so every codec is built for the first time inside the trial), one of 8 type families (self-recursive through slice/pointer/map, mutually recursive pair and triple, diamond, struct-keyed maps, named/interned, mixed), 2-8 goroutines x 2-5 operations (Marshal / Unmarshal / CodecForType on entry types of the family) whose results were pre-computed on a reference instance; the first case of every shard uses the package-level default instance over all library types. " +
 			"plain lane: a serialising scheduler with PCT priorities switches goroutines at the 6 yield hooks only - the trace of (goroutine, yield point) pairs is the interleaving; distinct_nontrivial counts distinct trace hashes. race lane: the same trials free-running with non-synchronising delays at the hooks; any race report is a violation.",
+		Exhaustive: []string{"thorough tier, lane systematic: for 2 goroutines x 3 operations on each of the 8 type families, ALL schedules with at most 3 preemptions at yield points, both start orders (stateless re-execution on fresh instances)"},
 		Assume: []string{"yield hooks cover the registry load/store, the struct field loop, the intern-table miss and the map scratch pool; preemption elsewhere is only reached by the free-running lane", "the race detector's happens-before analysis"},
 		Plan: func(tier string) []core.Lane {
 			if tier == "thorough" {
-				return []core.Lane{{Lane: "plain", Cases: 400000, Shards: 16, TimeoutS: 7200}, {Lane: "race", Cases: 60000, Shards: 16, TimeoutS: 7200}}
+				return []core.Lane{{Lane: "plain", Cases: 400000, Shards: 16, TimeoutS: 7200}, {Lane: "race", Cases: 60000, Shards: 16, TimeoutS: 7200},
+					{Lane: "systematic", Cases: len(c07Scenarios()) * c07SysBlocks, Shards: 16, TimeoutS: 7200}}
 			}
 			return []core.Lane{{Lane: "plain", Cases: 16000, Shards: 16, TimeoutS: 1800}, {Lane: "race", Cases: 2400, Shards: 16, TimeoutS: 1800}}
 		},
@@ -298,4 +304,127 @@ func init() {
 		Case:  c07Case,
 	})
 	_ = time.Now
+}
+
+// ---- driver 3: bounded-systematic enumeration (thorough tier, lane "systematic") ----
+
+const c07SysBlocks = 256 // cases per scenario; each handles the schedules with index = block (mod 256)
+
+const c07MaxPreempt = 3
+
+type c07Scenario struct {
+	fam c07Family
+	cfg int
+}
+
+func c07Scenarios() []c07Scenario {
+	fams := c07Families()
+	var out []c07Scenario
+	for i, f := range fams {
+		out = append(out, c07Scenario{f, i % 4})
+	}
+	return out
+}
+
+// c07Systematic executes, for one scenario, every schedule of 2 goroutines with
+// at most c07MaxPreempt preemptions at yield points (both start orders) whose index falls in
+// this case's block. The operations are a fixed function of the scenario.
+func c07Systematic(c *core.Ctx, idx int) {
+	rec := c.Rec
+	scs := c07Scenarios()
+	sc := scs[idx%len(scs)]
+	block := idx / len(scs)
+	cfg := instCfgs()[sc.cfg]
+	name := cfgName(cfg)
+	r := rand.New(rand.NewPCG(uint64(c.Seed), uint64(idx%len(scs))+77))
+	ops := c07Prepare(r, cfg, sc.fam, 2, 3)
+	exec := func(first int, switches []int) (steps int, fail string, stuck bool) {
+		p := instNew(cfg)
+		var mu sync.Mutex
+		var failures []string
+		fns := make([]func(), 2)
+		for w := range fns {
+			w := w
+			fns[w] = func() {
+				for i, op := range ops[w] {
+					if d := c07RunOp(p, cfg, op, false); d != "" {
+						mu.Lock()
+						failures = append(failures, fmt.Sprintf("goroutine %d op %d (%s %s): %s", w, i, []string{"Marshal", "Unmarshal", "CodecForType"}[op.kind], op.typ, d))
+						mu.Unlock()
+					}
+				}
+			}
+		}
+		s := mon.NewPlanSched(2, first, switches)
+		c07Sched = s
+		c07YieldMode = 2
+		ok := s.Run(fns)
+		c07YieldMode = 0
+		c07Sched = nil
+		if !ok {
+			return s.Steps(), "", true
+		}
+		if len(failures) > 0 {
+			return s.Steps(), failures[0], false
+		}
+		// the instance must be left in a conforming state: re-run both goroutines' operations sequentially
+		for w := range ops {
+			for _, op := range ops[w] {
+				if d := c07RunOp(p, cfg, op, false); d != "" {
+					return s.Steps(), "after quiescence: " + d, false
+				}
+			}
+		}
+		return s.Steps(), "", false
+	}
+	// the number of yield steps of the unpreempted runs bounds the useful switch positions
+	n0, _, _ := exec(0, nil)
+	n1, _, _ := exec(1, nil)
+	n := max(n0, n1) + 2
+	k := 0
+	run := func(first int, sw []int) bool {
+		mine := k%c07SysBlocks == block
+		k++
+		if !mine {
+			return true
+		}
+		rec.Eval(1)
+		steps, fail, stuck := exec(first, sw)
+		rec.NonTrivial(core.Hash64(sc.fam.name, fmt.Sprint(first, sw)))
+		rec.Max("yield_steps", float64(steps))
+		extra := map[string]any{"family": sc.fam.name, "config": name, "first": first, "switch_at_steps": fmt.Sprint(sw)}
+		if stuck {
+			rec.Violation("scheduler-stuck", fmt.Sprintf("[%s] family %s, start goroutine %d, preempt at steps %v: the goroutines stopped making progress", name, sc.fam.name, first, sw), extra)
+			return false
+		}
+		if fail != "" {
+			rec.Violation("concurrent-result", fmt.Sprintf("[%s] family %s, 2 goroutines on a fresh instance, start goroutine %d, preempt at yield steps %v: %s", name, sc.fam.name, first, sw, fail), extra)
+			return false
+		}
+		return true
+	}
+	var enum func(first int, sw []int, from int) bool
+	enum = func(first int, sw []int, from int) bool {
+		if !run(first, append([]int(nil), sw...)) {
+			return false
+		}
+		if len(sw) == c07MaxPreempt {
+			return true
+		}
+		for i := from; i <= n; i++ {
+			if !enum(first, append(sw, i), i+1) {
+				return false
+			}
+		}
+		return true
+	}
+	for first := 0; first < 2; first++ {
+		if !enum(first, nil, 1) {
+			return
+		}
+	}
+	rec.Count("systematic_schedules_in_space", k)
+	if block == 0 && rec.WantSample() {
+		rec.Sample(map[string]any{"lane": "systematic", "family": sc.fam.name, "config": name, "yield_steps_unpreempted": []int{n0, n1}, "schedules_with_at_most_3_preemptions": k})
+	}
 }
